@@ -1878,9 +1878,20 @@ func ruleJumpSet(p *Program, r *Reporter) {
 					}
 					// retarget clause: body indexes a map[int]int
 					mapIdx := false
+					written := map[ast.Expr]bool{} // entries of the map being set, not looked up
 					for _, st := range cl.Body {
 						ast.Inspect(st, func(m ast.Node) bool {
-							if ix, ok := m.(*ast.IndexExpr); ok {
+							if as, ok := m.(*ast.AssignStmt); ok {
+								for _, l := range as.Lhs {
+									written[ast.Unparen(l)] = true
+								}
+							}
+							return true
+						})
+					}
+					for _, st := range cl.Body {
+						ast.Inspect(st, func(m ast.Node) bool {
+							if ix, ok := m.(*ast.IndexExpr); ok && !written[ix] {
 								if mt, ok := info.Types[ix.X].Type.Underlying().(*types.Map); ok && isInt(mt.Key()) && isInt(mt.Elem()) {
 									mapIdx = true
 								}
@@ -1926,6 +1937,34 @@ func ruleJumpSet(p *Program, r *Reporter) {
 					if len(sets) == 1 {
 						for _, set := range sets {
 							retarget, retPos = set, lk.Pos()
+						}
+					}
+					if len(sets) == 0 {
+						// the targets were put on a list while the program was
+						// walked: the opcodes under which they were put there
+						if srcs, ok := localSources(lk.Index); ok && len(srcs) > 0 {
+							union := map[string]bool{}
+							good := true
+							for _, sv := range srcs {
+								si, isInstr := sv.(ssa.Instruction)
+								if !isInstr || si.Parent() == nil {
+									good = false
+									break
+								}
+								ss := opcodeSetsAt(p, si.Parent(), si.Block())
+								if len(ss) != 1 {
+									good = false
+									break
+								}
+								for _, set := range ss {
+									for k := range set {
+										union[k] = true
+									}
+								}
+							}
+							if good && len(union) > 0 {
+								retarget, retPos = union, lk.Pos()
+							}
 						}
 					}
 				}
